@@ -100,6 +100,8 @@ Fixpoint subnode (n : node) (p : list string) : option node :=
   | c :: r => match field n c with Some (VNode m) => subnode m r | _ => None end
   end.
 
+Definition descend (f : node -> node) (x : val) : val := match x with VNode m => VNode (f m) | _ => x end.
+
 (* root.q1...qn.name = v  (the assignment is made on a nested group) *)
 Fixpoint set_at (q : list string) (name : string) (v : val) (n : node) : node :=
   match q with
@@ -109,7 +111,7 @@ Fixpoint set_at (q : list string) (name : string) (v : val) (n : node) : node :=
       | Node cl fs =>
           Node cl (map (fun kv : string * val =>
                           if String.eqb (fst kv) c
-                          then (fst kv, match snd kv with VNode m => VNode (set_at r name v m) | x => x end)
+                          then (fst kv, descend (set_at r name v) (snd kv))
                           else kv) fs)
       end
   end.
@@ -144,6 +146,16 @@ Fixpoint run (ops : list op) (n : node) : option node :=
 Definition post_init (n : node) : node :=
   let re (k : string) (m : node) := match field m k with Some x => set k x m | None => m end in
   re "antialiased" (re "time_end" (re "time_begin" n)).
+
+(* MPDrawParams(k1=v1, ...): the generated __init__ stores the keyword arguments in the new group only (the flag
+   __initialized is still False), the nested groups are built from their own defaults, then __post_init__ runs.
+   [dflt] is the tree the class constructs without arguments. *)
+Definition set_own (name : string) (v : val) (n : node) : node :=
+  match n with
+  | Node c fs => Node c (map (fun kv : string * val => if String.eqb (fst kv) name then (fst kv, v) else kv) fs)
+  end.
+Definition construct (kw : list (string * val)) (dflt : node) : node :=
+  post_init (fold_left (fun n kv => set_own (fst kv) (snd kv) n) kw dflt).
 
 (* ---------------------------------------------------------------- enumeration of the groups of a tree *)
 Fixpoint all_paths (n : node) {struct n} : list (list string) :=
